@@ -1,6 +1,7 @@
 package catalog
 
 import (
+	"fmt"
 	schema "github.com/jsightapi/jsight-schema-core"
 	"github.com/jsightapi/jsight-schema-core/lexeme"
 	"github.com/jsightapi/jsight-schema-core/notations/jschema"
@@ -52,7 +53,13 @@ func (b ObjectBuilder) UserTypeNames() []string {
 	return b.schema.UserTypesNamesUsed.Data()
 }
 
-func (b ObjectBuilder) AddType(name string, sc schema.Schema) error {
+func (b ObjectBuilder) AddType(name string, sc schema.Schema) (err error) {
+	// The example generator of a regex panics for an expression it cannot handle.
+	defer func() {
+		if r := recover(); r != nil {
+			err = fmt.Errorf("%v", r)
+		}
+	}()
 	switch s := sc.(type) {
 	case *jschema.JSchema:
 		b.schema.Inner.AddType(name, ischema.Type{
